@@ -166,6 +166,8 @@ def check(case):
         tags.append("dict>=2")
     if cf_cols:
         tags.append("control")
+    if "categorical" in case["sf"]["kind"] or (case.get("cf") and "categorical" in case["cf"]["kind"]):
+        tags.append("category_dtype_features")
     if has_params:
         tags.append("sample_params")
     if len(sf_cols) >= 2:
